@@ -176,8 +176,8 @@ def run(ctx, rep: Report, deep: bool = False):
     cases = []
     for i in range(ctx.n(60, 1000)):
         nt = rng.randint(1, 8)
-        if i % 10 == 3:
-            nt = max(nt, 2)  # room for the pair-looking titles
+        if i % 10 in (3, 4):
+            nt = max(nt, 2)  # room for the pair-looking / duplicate titles
         if i % 50 == 7:
             nt = 90  # S147: a sheet of well over 4 KiB (a sample CD): every line of it counts
             rep.feat("sheet_longer_than_4k")
@@ -204,6 +204,11 @@ def run(ctx, rep: Report, deep: bool = False):
                 lines.append(f'    TITLE "{t}"\n')
                 titles.append(t)
                 rep.feat("titles_that_look_like_a_pair")
+            elif i % 10 == 4 and nt >= 2 and len(titles) < 2:
+                # S172: two tracks of one title - the second is written as `Twin (2)`; nothing is overwritten
+                lines.append('    TITLE "Twin"\n')
+                titles.append("Twin" if len(titles) == 0 else "Twin (2)")
+                rep.feat("duplicate_titles")
             elif titled and rng.random() < 0.7:
                 t = f"Song {k} x{rng.randint(0, 99)}"
                 lines.append(f'    TITLE "{t}"\n')
@@ -261,7 +266,7 @@ def run(ctx, rep: Report, deep: bool = False):
         rep.feat("odd_sheets")
     if ctx.model_available:
         compare_family(rep, "cdda", [c for c in cases if c.impl != "skip"], nontrivial=lambda c: c.impl.count(";") >= 2)
-    rep.required_features = ["pairs_exported", "multi_track", "odd_sheets", "tail_2352", "tail_3", "track_numbers_out_of_order", "tracks_100_minutes_and_more", "titles_that_look_like_a_pair", "sheet_longer_than_4k"]
+    rep.required_features = ["pairs_exported", "multi_track", "odd_sheets", "tail_2352", "tail_3", "track_numbers_out_of_order", "tracks_100_minutes_and_more", "titles_that_look_like_a_pair", "duplicate_titles", "sheet_longer_than_4k"]
 
 
 def search(ctx, rep: Report):
